@@ -199,24 +199,31 @@ def analyse_unindexed(tier):
     """API network without indices: re-indexed by joining order before rendering"""
     res = {"case": "unindexed", "ok": [], "unknown": [], "viol": [], "errors": [], "notes": [], "samples": [], "solver_s": 0.0, "programs": 0, "functions": []}
     try:
-        rs = [rx(["C", "CH"], ["C2", "H"], a=2.4e-10), rx(["H", "C2"], ["C", "CH"], a=4.67e-10, b=0.5), rx(["C", "H"], ["CH"], a=1e-17), rx(["CH", "Photon"], ["C", "H"], t=102, a=9.2e-10, c=1.7)]
-        mod = {1: "5.0e-11*Av", 3: "zeta"}
+        rs = [rx(["C", "CH"], ["C2", "H"], a=2.4e-10), rx(["H", "C2"], ["C", "CH"], a=4.67e-10, b=0.5), rx(["C", "H"], ["CH"], a=1e-17), rx(["CH", "Photon"], ["C", "H"], t=102, a=9.2e-10, c=1.7),
+              # two further channels that compare equal to reactions 0 and 1 (same species, window, type) but carry other coefficients
+              rx(["C", "CH"], ["C2", "H"], a=7.5e-11, b=-0.5), rx(["C2", "H"], ["CH", "C"], a=1.1e-10, c=30.0)]
         plain = proj.render("u-plain", {"reactions": rs, "network": {}, "targets": [proj.TARGETS["dense"]]})
-        api = proj.render("u-mod", {"reactions": rs, "network": {"rate_modifier": {str(k): v for k, v in mod.items()}}, "targets": [proj.TARGETS["dense"]]})
         rp, _ = _terms(plain, "cvode_dense", res)
-        ra, _ = _terms(api, "cvode_dense", res)
         s = z3.Solver()
         s.add(inv_axioms())
-        for i in range(len(rs)):
-            exp = cexpr.to_z3(mod[i]) if i in mod else rp.kout[i]
-            r_ = str(s.check(R(ra.kout[i]) != R(exp)))
-            nm = f"unindexed:k[{i}]"
-            if r_ == "unsat":
-                res["ok"].append(nm)
-            elif r_ == "sat":
-                res["viol"].append({"key": nm, "what": f"unindexed network: modifier keyed by joining order {i} not applied exactly: emitted {z3.simplify(R(ra.kout[i]))}"[:300], "replay": {"modifier": mod}})
-            else:
-                res["unknown"].append((nm, r_))
+        mods = {"two": {1: "5.0e-11*Av", 3: "zeta"}, "later-duplicate": {4: "3.0e-10*Av"}, "first-of-duplicates": {0: "zeta*2.0"}, "both-duplicates": {1: "1.5e-10", 5: "Av/3.0"}}
+        for mname, mod in mods.items():
+            api = proj.render(f"u-mod-{mname}", {"reactions": rs, "network": {"rate_modifier": {str(k): v for k, v in mod.items()}}, "targets": [proj.TARGETS["dense"]]})
+            if not api.ok or not api.target_ok("cvode_dense"):
+                res["viol"].append({"key": f"unindexed:{mname}:refused", "what": f"unindexed network with rate modifier {mod} is refused: {str(api.meta.get('error'))[-200:]}", "replay": {"modifier": mod}})
+                continue
+            ra, _ = _terms(api, "cvode_dense", res)
+            for i in range(len(rs)):
+                exp = cexpr.to_z3(mod[i]) if i in mod else rp.kout[i]
+                r_ = str(s.check(R(ra.kout[i]) != R(exp)))
+                XC.sample(s, [R(ra.kout[i]) != R(exp)], r_, f"unindexed:{mname}:k[{i}]")
+                nm = f"unindexed:{mname}:k[{i}]"
+                if r_ == "unsat":
+                    res["ok"].append(nm)
+                elif r_ == "sat":
+                    res["viol"].append({"key": nm, "what": f"unindexed network, modifier set {mod}: reaction at joining position {i} {'is not replaced by its modifier' if i in mod else 'does not keep its own rate'}: emitted {z3.simplify(R(ra.kout[i]))}"[:340], "replay": {"modifier": mod, "reactions": rs}})
+                else:
+                    res["unknown"].append((nm, r_))
     except Exception as e:
         res["errors"].append(f"{type(e).__name__}: {e}\n{traceback.format_exc()[-1200:]}")
     return res
